@@ -532,7 +532,7 @@ def load_corpus():
 def run(chk):
     chk.trusted_base = common.BASE_TRUST + [
         "translate/units/meta.py + _stagec.py: check_version, is_thread_stream, loom_name, proc_stream_get_pid, load_appid, load_rank, thread_stream_get_tid, thread_load_metadata, should_enable and the head / the JSON part of one loop iteration of load_cpus are rendered into coq/Gen/Meta_gen.v on every run; parson's look-up API, strcmp and the conversions double<->int are hand-written in coq/Emu/MetaPre.v over the JSON model of coq/Rt/RtMetaDefs.v (numbers are integers; `(int) d` is the identity on |d| < 2^31); clang's AST and the Python printer are trusted",
-        "translate/units/metabuild.py: create_thread, create_proc, create_loom and the loop body of create_system (src/emu/system.c), loom_find_proc / loom_add_proc / loom_load_metadata (loom.c), proc_find_thread / proc_add_thread / proc_load_metadata (proc.c) translated statement by statement to coq/Gen/MetaBuild_gen.v on every run; hand-written prelude coq/Emu/MetaBuildPre.v (the tables under construction are MetaDefs' fact tables; handles with a pending malloc'ed object; the gates and loaders of unit meta on the stream's claims; find_loom, loom_init_begin, proc_init_begin, thread_init_begin, the pid/tid/loom/proc accessors, uthash/utlist macros and malloc as primitives); the loop statement over the streams is MetaBuildGenProofs.run_streams (hand-written)",
+        "translate/units/metabuild.py: find_loom, create_thread, create_proc, create_loom, system_get_lpt, the loop body and the for statement of create_system (src/emu/system.c), loom_init_begin / loom_find_proc / loom_add_proc / loom_load_metadata (loom.c), proc_init_begin / proc_find_thread / proc_add_thread / proc_load_metadata (proc.c), thread_init_begin (thread.c) translated statement by statement to coq/Gen/MetaBuild_gen.v on every run; hand-written prelude coq/Emu/MetaBuildPre.v (the tables under construction are MetaDefs' fact tables; handles with a pending malloc'ed object; the gates and loaders of unit meta on the stream's claims; the pid/tid/loom/proc accessors, uthash/utlist macros, malloc, snprintf lengths, set_hostname and the virtual CPU as primitives; a struct stream * compared as its claims; loom names shorter than PATH_MAX)",
         "translate/units/_cmp.py + translate/c2gallina.py (clang JSON AST): the comparison part of the C comparators (loom.c by_pid/by_rank/by_phyid, proc.c by_tid, system.c cmp_loom_rank/cmp_loom_id) is translated to Gallina on every run, the statements that fetch the compared integers are pinned as normalised source text, not translated",
         "hand model coq/Emu/MetaDefs.v of system_init/load_cpus/load_appid/load_rank/create_thread/loom_sort/loom_init_end, "
         "validated on every run against ovniemu's exit status, signal, thread.row, cpu.row and the TID rows of thread.prv/cpu.prv",
